@@ -99,6 +99,12 @@ let parse_op (base : n list list) (o : string) : hop =
       let path = req_path base (n_of_int (int_of_string tmpl)) (str_of_field wname) (str_of_field id)
                    (str_of_field num) (str_of_field file) in
       HReq { rq_meth = meth_of m; rq_path = path; rq_body = body_of body }
+  | ["y"; tmpl; mb; k; body] ->
+      (* a GET racing with a removal of message k of mb that completes between look-up and open *)
+      let mbs = str_of_field mb in
+      let k = int_of_string k in
+      let path = req_path base (n_of_int (int_of_string tmpl)) (qescape mbs) (id_of_k (nat_of_int k)) (str_of_raw "0") (str_of_raw "a.bin") in
+      HRace ({ rq_meth = GET; rq_path = path; rq_body = body_of body }, mbs, nat_of_int k)
   | ["c"; op; name; arg] ->
       let name = str_of_field name in
       let id () = str_of_field arg and idx () = nat_of_int (int_of_string arg) in
@@ -115,7 +121,7 @@ let classify (o : hop) (expected : string) (impl : string) : string =
   else match o with
   | HCli _ -> "client-effect"
   | HAdd _ -> "delivery"
-  | HReq _ -> if expected = "404" then "missing-not-404" else "api-differs-from-store"
+  | HReq _ | HRace _ -> if expected = "404" then "missing-not-404" else "api-differs-from-store"
 
 let () =
   Mlutil.iter_lines (fun line ->
@@ -135,32 +141,54 @@ let () =
             else c) { c_cap = O; c_max = N0 } (List.tl parts) in
         let base = base_of_config (str_of_field basef) in
         let cbase = join_slash base in
-        let ops = if opsf = "-" then [] else List.map (parse_op base) (sp ',' opsf) in
+        let is_file = (List.hd (sp '.' storef) = "file") in
+        (* "x:<mb>:<k>": the content file of message k of mb vanishes (file store; nothing to lose in memory) *)
+        let ops = if opsf = "-" then [] else List.map (fun o ->
+            match sp ':' o with
+            | ["x"; mb; k] -> `Vanish (Mlutil.unhex mb, int_of_string k)
+            | _ -> `Model (parse_op base o)) (sp ',' opsf) in
+        let srcok_of broken = fun (mb : n list) (k : nat) -> not (List.mem (raw_of_str mb, int_of_nat k) broken) in
+        (* the environment of one step: for a race, the content of the raced message is gone on the file store *)
+        let env broken o = match o with
+          | HRace (_, mbs, k) when is_file -> srcok_of ((raw_of_str mbs, int_of_nat k) :: broken)
+          | _ -> srcok_of broken in
+        let remove st mbs k = fst (fst (exec_spec cfg st (Remove (mbs, Kth k)))) in
         (* model: what the code is predicted to answer *)
-        let (mst, mtoks) = List.fold_left (fun (st, acc) o ->
-          let (st', out) = hstep mfa cfg base cbase st o in (st', hout_tok out :: acc)) (spec_init, []) ops in
+        let (mst, _, mtoks) = List.fold_left (fun (st, broken, acc) o ->
+          match o with
+          | `Vanish (m, k) -> (st, (if is_file then (m, k) :: broken else broken), "X" :: acc)
+          | `Model o ->
+              let (st', out) = hstep mfa cfg (env broken o) base cbase st o in (st', broken, hout_tok out :: acc))
+          (spec_init, [], []) ops in
         let mtoks = List.rev mtoks in
         let model_outs = mtoks @ [dump_tok mst; mfa_field] @ (if !mfa_miss then ["MFA-MISS"] else []) in
-        (* oracle: the specification applied to what the implementation answered *)
+        (* oracle: the specification applied to what the implementation answered; where the specification leaves
+           the answer open (content gone, unparsable name, ...) any well-formed answer will do — a dropped
+           connection (handler panic) never *)
         let nops = List.length ops in
         let verdict =
           if List.length outs < nops + 1 then
             (match outs with "PANIC" :: _ -> "fail:handler-panic" | _ -> "fail:no-answer")
           else begin
-            let rec go st ops outs i =
+            let rec go st broken ops outs i =
               match ops, outs with
               | [], d :: _ -> if d = dump_tok st then "ok" else "fail:store-after"
-              | o :: ops', impl :: outs' ->
-                  (match hspec mfa cfg base st o with
+              | `Vanish (m, k) :: ops', impl :: outs' ->
+                  if impl <> "X" then Printf.sprintf "fail:harness@%d" i
+                  else go st (if is_file then (m, k) :: broken else broken) ops' outs' (i + 1)
+              | `Model o :: ops', impl :: outs' ->
+                  (match hspec mfa cfg (env broken o) base st o with
                    | Some (st', out) ->
                        let e = hout_tok out in
-                       if e = impl then go st' ops' outs' (i + 1)
+                       if e = impl then go st' broken ops' outs' (i + 1)
                        else Printf.sprintf "fail:%s@%d" (classify o e impl) i
                    | None ->
                        if impl = "DROP" then Printf.sprintf "fail:handler-panic@%d" i
-                       else go st ops' outs' (i + 1))
+                       else
+                         let st' = (match o with HRace (_, mbs, k) -> remove st mbs k | _ -> st) in
+                         go st' broken ops' outs' (i + 1))
               | _ -> "fail:no-answer" in
-            go spec_init ops outs 0
+            go spec_init [] ops outs 0
           end in
         Mlutil.print_model model_outs verdict
     | _ -> Mlutil.print_model ["UNKNOWN-KIND"] "ok")
